@@ -19,7 +19,7 @@ pub fn property() -> Property {
     Property {
         id: "C01",
         level: "exploration",
-        rule: "family `pipe` (Lab-M): 1-4 streams between a real client session and a real server session over in-memory pipes with generated fragmentation (1, 2, 6, 7, 8, 13, 4096, 16384, all), capacity (64 B .. 1 MiB), padding scheme (default / stop=0 / generated), per stream and direction a list of chunk sizes from boundary classes (0, 1, 2-100, 8191-8193, 16383-16385, 65534-65537, 70000, 131072, 200000) with position-keyed content, write API (write_data_frame / send_data / prefix+send_data), reader buffer sizes (1 .. 64 KiB, read / read_exact), forced pre-emptions at the hook points. Oracles: prefix after every read, completeness under a virtual watchdog, no end-of-stream while the stream is open, no failing write. Non-trivial = a chunk >= 65536, or transport fragments smaller than a frame header/payload, or >= 2 streams, or a reader buffer smaller than a chunk. Distinct = distinct serialized case. Since the fourth round of seeded changes the pipe family also generates transports that deliver nothing for 1-61 s of virtual time after n delivered bytes and then recover (capacity <= 1024 so that the writers sit in their writes), and the tunnel family pushes 1-8 MB against an application that starts reading 150/600 ms late in 4 KiB sips (one case in eight). The tunnel family also uploads 12 or 24 MiB through either front-end to a target that reads nothing for 0.3 / 1.5 s and then reads at its own pace without echoing (two fixed cases and one random case in 33): every byte must arrive, in order, unchanged.",
+        rule: "family `pipe` (Lab-M): 1-4 streams between a real client session and a real server session over in-memory pipes with generated fragmentation (1, 2, 6, 7, 8, 13, 4096, 16384, all), capacity (64 B .. 1 MiB), padding scheme (default / stop=0 / generated), per stream and direction a list of chunk sizes from boundary classes (0, 1, 2-100, 8191-8193, 16383-16385, 65534-65537, 70000, 131072, 200000) with position-keyed content, write API (write_data_frame / send_data / prefix+send_data), reader buffer sizes (1 .. 64 KiB, read / read_exact), forced pre-emptions at the hook points. Oracles: prefix after every read, completeness under a virtual watchdog, no end-of-stream while the stream is open, no failing write. Non-trivial = a chunk >= 65536, or transport fragments smaller than a frame header/payload, or >= 2 streams, or a reader buffer smaller than a chunk. Distinct = distinct serialized case. Since the fourth round of seeded changes the pipe family also generates transports that deliver nothing for 1-61 s of virtual time after n delivered bytes and then recover (capacity <= 1024 so that the writers sit in their writes), and the tunnel family pushes 1-8 MB against an application that starts reading 150/600 ms late in 4 KiB sips (one case in eight). The tunnel family also uploads 12 or 24 MiB through either front-end to a target that reads nothing for 0.3 / 1.5 s and then reads at its own pace without echoing (two fixed cases and one random case in 33): every byte must arrive, in order, unchanged. Three tunnel cases in ten (and two fixed ones with a 100 KB greeting and a late reader) let the application shut down its sending direction as soon as it has written everything and go on reading: everything still on its way back must arrive.",
         assumptions: vec![
             "tokio paused clock and current-thread scheduler; the harness pipe",
             "server session wired as handle_connection wires it (callback channel, recv_loop, process_stream_data)",
